@@ -56,6 +56,10 @@ def run(prop, tier, cfg):
                 os.makedirs(env['CARGO_TARGET_DIR'], exist_ok=True)
                 with open(os.path.join(env['CARGO_TARGET_DIR'], '.vp.lock'), 'w') as lk:
                     fcntl.flock(lk, fcntl.LOCK_EX)   # one build at a time in the shared target directory
+                    now = time.time()
+                    for root, _, files in os.walk(os.path.join(scratch, 'src')):
+                        for fn in files:
+                            os.utime(os.path.join(root, fn), (now, now))   # never mistaken for the previous build's sources
                     p = subprocess.run(cmd, cwd=scratch, env=env, capture_output=True, text=True, timeout=h.get('timeout', 900))
                 txt = p.stdout + p.stderr
             except subprocess.TimeoutExpired:
